@@ -250,6 +250,8 @@ class Shaper:
                 body = self._body(f, s.body, body_env)
                 inner = self._inline(gen, it, f, env, out, yield_body=body)
                 return
+            if gen is not None and not gen.is_generator():
+                out.append(("unk", f"iteration over the object returned by {gen.qualname} (not a generator)"))
             ittext = self._expr(f, it, env, out)
             self._target(s.target, f"each({ittext})", env)
             e1 = dict(env)
@@ -477,6 +479,9 @@ class Shaper:
                     self._expr(f, e.elt, env2, sub)
                 self._inline(gen, g0.iter, f, env, out, yield_body=sub)
                 return "comp"
+            if gen is not None and not gen.is_generator():
+                # iterating over an object a codec method returns: what each step consumes is that object's business
+                out.append(("unk", f"iteration over the object returned by {gen.qualname} (not a generator)"))
             for g in e.generators:
                 it = self._expr(f, g.iter, env2, out)
                 self._target(g.target, f"each({it})", env2)
